@@ -19,6 +19,13 @@ Lemma gen_restrict_boundary_is_model : forall nf t2f elements b,
   gen_restrict_boundary nf t2f elements b = restrict_boundary nf t2f elements b.
 Proof. reflexivity. Qed.
 
+Lemma gen_dedupe_is_model : forall p t, gen_dedupe_p p = dedupe_p p /\ gen_dedupe_t p t = dedupe_t p t.
+Proof. intros; split; reflexivity. Qed.
+Lemma gen_join_is_model : forall p1 p2 t1 t2, gen_join_p p1 p2 = join_p p1 p2 /\ gen_join_t p1 p2 t1 t2 = join_t p1 p2 t1 t2.
+Proof. intros; split; reflexivity. Qed.
+Lemma gen_carry_boundary_is_model : forall OF NF b, gen_carry_boundary OF NF b = carry_boundary OF NF b.
+Proof. reflexivity. Qed.
+
 (* ---- quadrilateral -> 2 triangles: the children's signed areas add up to the parent's, for EVERY quadrilateral *)
 Lemma quad_split_area : forall v0 v1 v2 v3 : pt2,
   let P := [v0; v1; v2; v3] in
